@@ -1,0 +1,64 @@
+//! Verification hooks: read-only, plain-data snapshots of otherwise private state.
+//!
+//! Only compiled with the `verif` feature; used by the deterministic simulation
+//! harness to evaluate invariants. Nothing in here changes the behaviour of the stack.
+
+use std::vec::Vec;
+
+use crate::transport::network::Address;
+use crate::transport::session::SessionMode;
+
+/// The occupancy of a transport packet slot (RX or TX).
+#[derive(Debug, Clone, Copy, PartialEq, Eq)]
+pub enum SlotSnap {
+    /// The slot is currently locked by some task
+    Locked,
+    /// The slot is unlocked and empty
+    Empty,
+    /// The slot is unlocked and holds a packet
+    Full,
+}
+
+#[derive(Debug, Clone, PartialEq, Eq)]
+pub struct ExchSnap {
+    pub index: usize,
+    pub exch_id: u16,
+    pub initiator: bool,
+    /// 0 = owned, 1 = accept pending, 2 = dropped
+    pub state: u8,
+    /// Pending retransmission: (message counter, transmissions so far)
+    pub retrans: Option<(u32, u16)>,
+    /// Pending acknowledgement: (message counter, acknowledged at least once)
+    pub ack: Option<(u32, bool)>,
+    /// `received_at` in ticks
+    pub received_at: Option<u64>,
+}
+
+#[derive(Debug, Clone, PartialEq, Eq)]
+pub struct SessionSnap {
+    pub id: u32,
+    pub local_sess_id: u16,
+    pub peer_sess_id: u16,
+    pub peer_addr: Address,
+    pub local_nodeid: u64,
+    pub peer_nodeid: Option<u64>,
+    pub mode: SessionMode,
+    pub msg_ctr: u32,
+    pub rx_max_ctr: u32,
+    pub rx_bitmap: u16,
+    pub expired: bool,
+    pub reserved: bool,
+    pub last_use: u64,
+    pub dec_key: [u8; 16],
+    pub enc_key: [u8; 16],
+    pub exchanges: Vec<ExchSnap>,
+}
+
+#[derive(Debug, Clone, PartialEq, Eq)]
+pub struct Snapshot {
+    pub sessions: Vec<SessionSnap>,
+    pub rx_slot: SlotSnap,
+    pub tx_slot: SlotSnap,
+    pub mdns_resolve_in_flight: bool,
+    pub mdns_browse_in_flight: bool,
+}
